@@ -19,9 +19,14 @@ pub fn honest<S: Sch>(cfg: &Cfg, mode: Mode) -> Verdict {
     match mode {
         Mode::Single => {
             for k in 0..w.points.len() {
-                let idx = w.at_point(k);
+                let mut idx = w.at_point(k);
                 if idx.is_empty() {
                     continue;
+                }
+                // single openings pair polynomials and commitments by position: with both flags set the prover and the
+                // verifier list them in the same, non-sorted (descending label) order
+                if cfg.rev_prover && cfg.rev_verifier {
+                    idx.reverse();
                 }
                 let proof = match w.open(&idx, k, &mut sp_p) {
                     Ok(p) => p,
